@@ -111,8 +111,8 @@ def emission_guard(b, self_fields_ok=("emit", "event_emission")):
     edges = b.bool_guard_edges(is_pred)
     # field form: switch on self.<bool field>
     for bid, org, tv, other in b.switch_edges():
-        if org[0] == "param" and org[1] == 1 and len(org[2]) == 1 and set(tv) == {0}:
-            edges.append({"switch": bid, "call": None, "true_edge": (bid, other), "false_edge": (bid, tv[0]), "field": org[2][0]})
+        if org[0] == "param" and org[1] == 1 and 1 <= len(org[2]) <= 3 and set(tv) == {0}:
+            edges.append({"switch": bid, "call": None, "true_edge": (bid, other), "false_edge": (bid, tv[0]), "field": org[2][-1]})
     return edges
 
 
@@ -143,7 +143,8 @@ def check_emitting(ctx, facts, b, variant, id_org, channel_root, delegate_pred, 
     # receiver rooted in the channel field
     ro = b.operand_origin(wt["args"][0])
     roots = b.roots(ro)
-    okc = any(r[0] == "param" and r[1] == 1 and r[2][:1] == (channel_root,) for r in roots) or \
+    cpath = channel_root if isinstance(channel_root, tuple) else (channel_root,)
+    okc = any(r[0] == "param" and r[1] == 1 and r[2][:len(cpath)] == cpath for r in roots) or \
         (wt.get("_wrapper") == (channel_root,) and any(r[0] == "param" and r[1] == 1 and not r[2] for r in roots))
     ctx.ob(rule, key + " writes the storage's own channel", okc, b.loc(wbb), "" if okc else "receiver roots %r" % (sorted(map(repr, roots)),))
     # guarded by the emission switch (R3)
@@ -225,12 +226,30 @@ def run_config(ctx, facts):
         if not built:
             ctx.ob("C12-R2", key, False, b.loc(), "get_mut does not build its access wrapper %s" % acc)
             continue
-        names = [f["name"] for f in adt["variants"][0]["fields"]]
+        # leaf fields of the wrapper, looking through private structs nested in it (`pending: PendingModification { events, armed, id }`)
+        def leaves(adt_, prefix, rv_, at_, depth=0):
+            out = []
+            fl = adt_["variants"][0]["fields"]
+            for i, f in enumerate(fl):
+                o = b.operand_origin(rv_["ops"][i], at=at_) if rv_ is not None and i < len(rv_["ops"]) else None
+                sub = facts.adts.get(base_ty(f["ty"]))
+                if sub and sub.get("kind") == "Struct" and len(sub.get("variants", [])) == 1 and depth < 2 and base_ty(f["ty"]).split("::")[0] in ("storage", "world", "join", "saveload", "changeset"):
+                    rv2, at2 = None, None
+                    if o and o[0] == "agg":
+                        rv2 = b.blocks[o[1]]["stmts"][o[2]]["rv"]
+                        at2 = (o[1], o[2])
+                        if rv2.get("adt") != base_ty(f["ty"]):
+                            rv2 = None
+                    out += leaves(sub, prefix + (f["name"],), rv2, at2, depth + 1)
+                else:
+                    out.append((prefix + (f["name"],), f["ty"], o))
+            return out
         rv = built[2]
-        fo = {n: b.operand_origin(rv["ops"][i]) for i, n in enumerate(names) if i < len(rv["ops"])}
-        bool_fields = [f["name"] for f in adt["variants"][0]["fields"] if f["ty"] == "bool"]
-        id_fields = [f["name"] for f in adt["variants"][0]["fields"] if f["ty"] == "u32"]
-        chan_fields = [f["name"] for f in adt["variants"][0]["fields"] if "EventChannel" in f["ty"]]
+        lf = leaves(adt, (), rv, (built[0], b.blocks[built[0]]["stmts"].index(built[1])))
+        fo = {pth: o for pth, ty_, o in lf}
+        bool_fields = [pth for pth, ty_, o in lf if ty_ == "bool"]
+        id_fields = [pth for pth, ty_, o in lf if ty_ == "u32"]
+        chan_fields = [pth for pth, ty_, o in lf if "EventChannel" in ty_]
         ok_emit = False
         for f in bool_fields:
             o = fo.get(f)
@@ -251,12 +270,12 @@ def run_config(ctx, facts):
             mb = facts.body(i["items"]["deref_mut"])
             if not mb:
                 continue
-            idf = id_fields[0] if id_fields else "id"
-            chf = chan_fields[0] if chan_fields else "channel"
+            idf = id_fields[0] if id_fields else ("id",)
+            chf = chan_fields[0] if chan_fields else ("channel",)
 
             def delegate2(bb, t):
                 return t["callee"].get("name") in ("access_mut", "deref_mut") and mb.arg_origin(bb, 0)[:2] == ("param", 1)
-            check_emitting(ctx, facts, mb, "Modified", ("param", 1, (idf,)), chf, delegate2, "%s::deref_mut" % acc, rule="C12-R2")
+            check_emitting(ctx, facts, mb, "Modified", ("param", 1, tuple(idf)), tuple(chf), delegate2, "%s::deref_mut" % acc, rule="C12-R2")
         for i in dr:
             rb = facts.body(i["items"]["deref"])
             if rb:
